@@ -1,12 +1,15 @@
 (* Props/C10.v — property C10: key and signature encodings (WIF, SEC, DER) are lossless and strict.
    Only statements; every proof is `exact <lemma>`.
 
-   The only number-theoretic premise left is `prime p` (M1 of DESIGN.md section 3: no primality
-   certificate checker is installed, and 256-bit primality by kernel computation is out of reach).  Fermat's
-   little theorem (M3) is PROVED from it (Proofs/FermatC10.v).  `prime p` is used ONLY for "decompression
-   finds the point back" (the three C10_sec_*roundtrip* theorems); it is proved by computation on the toy
-   field p = 251 (C10_toy_premises_hold), and for the generator G of secp256k1 the round trip is evaluated
-   outright (C10_secp256k1_G_roundtrips).  The acceptance/strictness theorems do not need it.
+   The only number-theoretic premise of the GENERIC SEC theorems (any 32-byte field prime p = 3 mod 4) is `prime p`
+   (M1 of DESIGN.md section 3); Fermat's little theorem (M3) is PROVED from it (Proofs/FermatC10.v).  `prime p` is
+   used ONLY for "decompression finds the point back" (C10_sec_roundtrip, C10_sec_decode_roundtrip); it is proved by
+   computation on the toy field p = 251 (C10_toy_premises_hold).  For secp256k1 — the curve the networks use, constants
+   regenerated from pycoin/ecdsa/secp256k1.py — `prime k1_p` (and `prime k1_n`) is now PROVED by a kernel-checked
+   Pocklington certificate (Proofs/Pocklington.v, CurvePrimes.v, CurvePrimesC10.v; C10_secp256k1_moduli_prime), so
+   C10_sec_roundtrip_secp256k1_unconditional, C10_sec_decode_roundtrip_secp256k1 and C10_secp256k1_no_point_with_y0
+   have NO premise left (C10_sec_roundtrip_secp256k1, with the premise as hypothesis, is kept).  The
+   acceptance/strictness theorems never needed it.
 
    DER: the round trip is proved for every pair r, s >= 0 whose encoding DER can express at all: the
    signature body must be shorter than 256^127 bytes, the largest length a long-form length field (at
@@ -16,7 +19,7 @@
    /repo (encode_integer now uses encode_length) and its exclusion is gone. *)
 From Coq Require Import Znumtheory.
 From PV Require Import Base.Bytes Base.Outcome Gen.GenWifPrefixes Gen.GenCurveC10
-  Model.Der Model.Sec Model.Wif Spec.DerStrictSpec Proofs.DerP Proofs.SecP Proofs.WifP.
+  Model.Der Model.Sec Model.Wif Spec.DerStrictSpec Proofs.DerP Proofs.SecP Proofs.WifP Proofs.SecK1Primes.
 Local Open Scope Z_scope.
 
 (* ================================ DER ================================ *)
@@ -104,6 +107,34 @@ Theorem C10_sec_roundtrip_secp256k1 :
     key_from_sec k1_p k1_a k1_b sec = Ret ((x, y), compressed).
 Proof. exact sec_roundtrip_k1. Qed.
 Print Assumptions C10_sec_roundtrip_secp256k1.
+
+(* ... and `prime k1_p` is a theorem (Pocklington certificate re-checked by the kernel, on the regenerated constant): the
+   same statement with NO premise *)
+Theorem C10_secp256k1_moduli_prime : prime k1_p /\ prime k1_n.
+Proof. exact k1_moduli_prime. Qed.
+Print Assumptions C10_secp256k1_moduli_prime.
+
+Theorem C10_sec_roundtrip_secp256k1_unconditional :
+  forall (x y : Z) (compressed : bool),
+  0 <= x < k1_p -> 0 <= y < k1_p -> contains_point k1_p k1_a k1_b x y = true ->
+  exists sec, public_pair_to_sec (x, y) compressed = Ret sec /\
+    length sec = (if compressed then 33 else 65)%nat /\
+    key_from_sec k1_p k1_a k1_b sec = Ret ((x, y), compressed).
+Proof. exact sec_roundtrip_k1_unconditional. Qed.
+Print Assumptions C10_sec_roundtrip_secp256k1_unconditional.
+
+Theorem C10_sec_decode_roundtrip_secp256k1 :
+  forall (x y : Z) (compressed strict : bool),
+  0 <= x < k1_p -> 0 <= y < k1_p -> contains_point k1_p k1_a k1_b x y = true ->
+  exists sec, public_pair_to_sec (x, y) compressed = Ret sec /\
+    sec_to_public_pair k1_p k1_a k1_b sec strict = Ret (x, y).
+Proof. exact sec_decode_roundtrip_k1_unconditional. Qed.
+Print Assumptions C10_sec_decode_roundtrip_secp256k1.
+
+(* no point of secp256k1 has y = 0 (Fermat from primality; (-7)^((p-1)/3) <> 1 is computed) *)
+Theorem C10_secp256k1_no_point_with_y0 : forall x, 0 <= x < k1_p -> contains_point k1_p k1_a k1_b x 0 = false.
+Proof. exact k1_no_y0_unconditional. Qed.
+Print Assumptions C10_secp256k1_no_point_with_y0.
 
 (* why 0 < y: for a curve point with y = 0 decompression raises ValueError (pycoin's documented curves
    have prime order, hence no such point) *)
@@ -255,3 +286,46 @@ Proof. exact der_lows_k1_example. Qed.
 (* WIF: the prefix 80 (Bitcoin's) is in the table and exponent 1 is in range *)
 Example C10_wif_btc : (exists sym, In (sym, [x80]) wif_prefixes) /\ 1 <= 1 < k1_n.
 Proof. exact wif_btc_example. Qed.
+
+(* ================================ public pair, however presented ================================ *)
+(* Key.__init__ takes any 2-sequence: tuple, list, or a Point object carrying its own curve (Model/Sec.v
+   pair_arg).  Acceptance and result depend only on the coordinates and the KEY's curve: *)
+Theorem C10_public_pair_presentation_independent :
+  forall (p a b : Z) (k1 k2 : presentation) (x y : option Z),
+  key_public_arg p a b (mk_arg k1 x y) = key_public_arg p a b (mk_arg k2 x y).
+Proof. exact key_public_arg_presentation_independent. Qed.
+Print Assumptions C10_public_pair_presentation_independent.
+
+(* accepted iff both coordinates are integers, satisfy the KEY's curve equation and lie in [0, p);
+   everything else (None coordinate, off the key's curve, unreduced) is InvalidPublicPairError *)
+Theorem C10_public_pair_arg_range : forall (p a b : Z) (pa : pair_arg),
+  (forall q, key_public_arg p a b pa = Ret q ->
+     exists x y, pa_x pa = Some x /\ pa_y pa = Some y /\ q = (x, y) /\
+       contains_point p a b x y = true /\ 0 <= x < p /\ 0 <= y < p) /\
+  ((forall x y, pa_x pa = Some x -> pa_y pa = Some y ->
+      ~ (contains_point p a b x y = true /\ 0 <= x < p /\ 0 <= y < p)) ->
+   key_public_arg p a b pa = Raise E_PUBPAIR) /\
+  (forall x y, pa_x pa = Some x -> pa_y pa = Some y ->
+     contains_point p a b x y = true -> 0 <= x < p -> 0 <= y < p ->
+     key_public_arg p a b pa = Ret (x, y)).
+Proof. exact key_public_arg_spec. Qed.
+Print Assumptions C10_public_pair_arg_range.
+
+(* a Point object built on ANOTHER curve (so validated there) that is not on the key's curve is refused,
+   and so is the point at infinity in every presentation *)
+Theorem C10_foreign_point_refused : forall p a b cp ca cb x y : Z,
+  contains_point cp ca cb x y = true -> contains_point p a b x y = false ->
+  point_wf (mk_arg (Pr_point cp ca cb) (Some x) (Some y)) /\
+  key_public_arg p a b (mk_arg (Pr_point cp ca cb) (Some x) (Some y)) = Raise E_PUBPAIR.
+Proof. exact foreign_point_refused. Qed.
+Print Assumptions C10_foreign_point_refused.
+
+Theorem C10_infinity_refused : forall (p a b : Z) (k : presentation),
+  key_public_arg p a b (mk_arg k None None) = Raise E_PUBPAIR.
+Proof. exact infinity_refused. Qed.
+Print Assumptions C10_infinity_refused.
+
+(* non-vacuity: (1, 2) lies on y^2 = x^3 + 3 over the field of secp256k1 and not on secp256k1 *)
+Example C10_foreign_point_exists :
+  contains_point k1_p 0 3 1 2 = true /\ contains_point k1_p k1_a k1_b 1 2 = false.
+Proof. exact foreign_point_example. Qed.
